@@ -29,15 +29,32 @@ def judge(prog, events, ans):
     return ["at event %d: engine reports %s, earliest-continuation semantics gives %s" % (k, gs, ws) for k, gs, ws, _, _ in diffs(prog, events, ans)]
 
 
+def coq_args(prog, events):
+    steps = "; ".join("mkStep %d %s %s false" % (S.TYPES.index(s["ty"]), S.op_coq(s["pred"]), "None" if s["alias"] is None else "(Some %d)" % S.ALIASES.index(s["alias"])) for s in prog["steps"])
+    negs = "; ".join("(%d, %s)" % (S.TYPES.index(n["ty"]), S.op_coq(n["pred"])) for n in prog["negs"])
+    part = "None" if prog["partition"] is None else "(Some %d)" % S.FIELDS[prog["partition"]]
+    return "[%s] [%s] %s [%s]" % (steps, negs, part, "; ".join(S.ev_coq(e) for e in events))
+
+
+KNOWN_IMPORTS = S.IMPORTS.replace("Sase.Run.", "Sase.Run Sase.RunKnown.")
+
+
 def classify(prog, events, ans, fails):
     """Known finding `not-on-completing-event`: the only differences are matches the engine suppresses because the
     event that completes them also satisfies a .not clause (the engine checks .not clauses before advancing runs;
-    the property only forbids .not events *before* the completion)."""
+    the property only forbids .not events *before* the completion).  The class id is granted only if, in addition,
+    the formal class predicate [known_c02] of C02_exact_outside_known_class holds of the (shrunk) case: outside that
+    class the theorem says engine = reference, so a failure there is never the known finding."""
     if "panic" in ans:
         return []
     d = diffs(prog, events, ans)
     if d and all(not extra and missing and all(m["completer_is_not_event"] for m in missing) for _, _, _, missing, extra in d):
-        return ["not-on-completing-event"]
+        from vplib import coqtools
+        try:
+            k = coqtools.coq_eval("C02class", KNOWN_IMPORTS, ["known_case " + coq_args(prog, events)], timeout=1800)[0]
+        except RuntimeError:
+            return []
+        return ["not-on-completing-event"] if k.startswith("K1") else []
     return []
 
 
@@ -69,18 +86,18 @@ def check(run):
     binpath = S.build(run, "C02.v")
     if binpath is None:
         return
-    cases = cases_for(run)
-    S.drive(run, binpath, cases, "C02", judge, classify, contradicts="C02_* in coq/theories/Sase/Props.v")
-    # the Python reference used as oracle is the Coq definition Sase.Ref.ref_matches: compare them on every case
     from vplib import coqtools
-    exprs = []
-    for prog, events in cases:
-        steps = "; ".join("mkStep %d %s %s false" % (S.TYPES.index(s["ty"]), S.op_coq(s["pred"]), "None" if s["alias"] is None else "(Some %d)" % S.ALIASES.index(s["alias"])) for s in prog["steps"])
-        negs = "; ".join("(%d, %s)" % (S.TYPES.index(n["ty"]), S.op_coq(n["pred"])) for n in prog["negs"])
-        part = "None" if prog["partition"] is None else "(Some %d)" % S.FIELDS[prog["partition"]]
-        exprs.append("ref_case [%s] [%s] %s [%s]" % (steps, negs, part, "; ".join(S.ev_coq(e) for e in events)))
+    ok, lg = coqtools.make(["theories/Sase/RunKnown.vo"])      # needed by classify() during drive()
+    run.oblige("coqc (full .vo) theories/Sase/RunKnown.vo", ok, lg[-2000:])
+    cases = cases_for(run)
+    answers = S.drive(run, binpath, cases, "C02", judge, classify, contradicts="C02_* in coq/theories/Sase/Props.v")
+    # 1. the Python reference used as oracle is the Coq definition Sase.Ref.ref_matches: compare them on every case
+    # 2. the right-hand side of C02_engine_is_per_start_greedy ([ref_e], evaluated in Coq) against the implementation
+    #    itself, on every case whose stream is no longer than the run limit (the theorem's hypothesis)
+    # 3. the formal class predicate [known_c02] against the Python classification (reported, not a verdict)
+    exprs =["ref_case " + coq_args(p, e) for p, e in cases] + (["known_case " + coq_args(p, e) for p, e in cases] if ok else [])
     try:
-        got = coqtools.coq_eval("C02ref", S.IMPORTS, exprs, shard=max(10, len(exprs) // 16 + 1), timeout=1800)
+        got = coqtools.coq_eval("C02ref", KNOWN_IMPORTS if ok else S.IMPORTS, exprs, shard=max(10, len(exprs) // 16 + 1), timeout=1800)
         bad = 0
         for (prog, events), g in zip(cases, got):
             mine = sorted(".".join(str(i) for i in m["stack"]) for ms in S.ref_matches_no_all(prog, events) for m in ms)
@@ -88,7 +105,29 @@ def check(run):
                 bad += 1
                 if bad <= 2:
                     run.tie_broken("Python reference vs Sase.Ref.ref_matches", "%s\n coq %s\n py %s" % (S.describe(prog, events), g, mine))
-        run.extra["reference_cases_compared"] = len(got)
+        run.extra["reference_cases_compared"] = len(cases)
+        if ok:
+            bad = 0
+            n_cmp = 0
+            n_known = 0
+            n_class_differs = 0
+            for (prog, events), ans, g in zip(cases, answers, got[len(cases):]):
+                flag, _, stacks = g.partition("#")
+                n_known += flag == "K1"
+                py_known = any(m["completer_is_not_event"] for ms in S.ref_matches_no_all(prog, events) for m in ms)
+                n_class_differs += py_known != (flag == "K1")
+                if ans is None or "panic" in ans or len(events) > prog["max_runs"]:
+                    continue
+                n_cmp += 1
+                impl = sorted(".".join(str(i) for i in m["stack"]) for ms in S.parse_matches(ans) for m in ms)
+                if impl != sorted(x for x in stacks.split(";") if x):
+                    bad += 1
+                    if bad <= 2:
+                        run.tie_broken("implementation vs ref_e (right-hand side of C02_engine_is_per_start_greedy)",
+                                       "%s\n ref_e %s\n impl %s" % (S.describe(prog, events), stacks, impl))
+            run.extra["ref_e_cases_compared_with_implementation"] = n_cmp
+            run.extra["cases_in_known_class"] = n_known
+            run.extra["class_predicate_vs_python_classification_differences"] = n_class_differs
     except RuntimeError as ex:
         run.tie_broken("reference evaluation (coqc)", str(ex))
 
